@@ -114,6 +114,8 @@ def fit_case(case):
     if len(case) == 6:          # history axis: the same estimator was first fitted on data of another shape
         return refit_case(case)
     name, spec, shape, form, seed = case
+    if form == "missing_matrix":
+        return missing_matrix_case(case)
     n, d = shape
     Xc = seams.tiny_data(n, d, seed + 17)
     Xin = form_of(Xc, form)
@@ -217,6 +219,34 @@ def fit_case(case):
             "stats": {"evals": 1}, "sample": {"estimator": name, "spec": spec, "shape": shape, "form": form}}
 
 
+def missing_matrix_case(case):
+    """Kauri(kernel='precomputed') fitted without the matrix: either refused (ValueError / TypeError family), or - the documented fallback -
+    a warning and exactly the model of the linear kernel; never a third thing (e.g. the data itself used as a kernel when it is square)."""
+    import warnings
+    name, spec, shape, form, seed = case
+    n, d = shape
+    X = seams.tiny_data(n, d, seed + 17)
+    from gemclus.tree import Kauri
+    kw = dict(max_clusters=spec.get("max_clusters", 3), random_state=seed)
+    where = dict(estimator=name, deviating=["kernel"], n=n, d=d, form=form, kernel="precomputed")
+    v = []
+    for mode in ("ignore", "always"):
+        model = Kauri(kernel="precomputed", **kw)
+        try:
+            with warnings.catch_warnings():
+                warnings.simplefilter(mode)
+                model.fit(X)
+                sc = model.score(X)
+        except (ValueError, TypeError):
+            continue
+        ref_model = Kauri(kernel="linear", **kw).fit(X)
+        if not np.array_equal(model.labels_, ref_model.labels_) or not abs(sc - ref_model.score(X)) <= 1e-9 * max(1.0, abs(sc)) \
+                or not np.array_equal(model.predict(X), model.labels_):
+            v.append(violation("fallback_fit_is_neither_refused_nor_the_documented_linear_kernel_model",
+                               {"labels": model.labels_, "linear_kernel_labels": ref_model.labels_, "score": sc, "linear_kernel_score": ref_model.score(X)}, **where))
+    return {"v": v[:1], "nt": [case], "stats": {"evals": 2}, "sample": {"estimator": name, "shape": shape, "form": form}}
+
+
 def refit_case(case):
     """fit on shape A, then the same (valid) configuration is fitted on shape B: the second fit must succeed and be coherent."""
     name, spec, shape_a, shape_b, seed, _ = case
@@ -297,6 +327,9 @@ def explorers(tier, seed):
                         if name == "Kauri" and 2 * s.get("min_samples_leaf", 1) > s.get("min_samples_split", 2):
                             continue
                         cases.append((name, s, shape, "float64", seed))
+    for shape in SHAPES + [(4, 4), (5, 5), (3, 3)]:
+        for K in (2, 3):
+            cases.append(("Kauri", {"max_clusters": K}, shape, "missing_matrix", seed))
     # history axis: fit on one shape, then on a narrower / wider / shorter one (default configuration and group/mask variants)
     for name in M.ESTIMATORS:
         variants = [{}]
